@@ -636,6 +636,11 @@ def ctor_specs(rng, tier):
             spec["column_names"] = [rng.choice(["a", None]) for _ in range(c_ok + 1)] if rng.random() < 0.7 else []
         specs.append(spec)
     specs.append({"kind": "trough", "name": "T", "vrows": {"notint": "none"}, "cols": 2, "min": "0", "max": "100", "init": None})
+    # per-column initial volumes of the wrong length, the one-element list included (only a scalar is broadcast)
+    for cols_ in (2, 3, 4):
+        for n_ in (1, cols_ - 1, cols_ + 1):
+            specs.append({"kind": "trough", "name": "T", "vrows": 4, "cols": cols_, "min": "0", "max": "1000", "init": {"shape": "list", "v": ["100"] * n_}})
+            specs.append({"kind": "trough", "name": "T", "vrows": 2, "cols": cols_, "min": "0", "max": "1000", "init": {"shape": "list", "v": ["50"] * n_}, "via_labware": True})
     # otherwise valid troughs whose per-column name list has the wrong length, the empty list included
     for cols_ in (1, 2, 3):
         for cn in ([], [None] * (cols_ + 1), ["a"] * (cols_ - 1) if cols_ > 1 else ["a", "b"]):
